@@ -9,6 +9,7 @@ from vlib import coq_str, coq_list, coq_bool, decode_str
 PROP = "C18"
 IMPORTS = ["Base.Str", "Model.Scripts"]
 PRELUDE = """
+From Coq Require Import ZArith.
 Definition tbl (l : list bool) : tquery -> bool := fun t => nth (N.to_nat (q_id t)) l false.
 Definition b2n (b : bool) : N := if b then 1 else 0.
 Definition case_scripts (defs : list sid) (rules : list rule) (queries sel : list tquery)
@@ -23,6 +24,19 @@ Definition case_parse (c : str) : (N * envmap) :=
   match parse_env_file c with Some m => (1, m) | None => (0, []) end.
 Definition res_code (r : exec_result) : N :=
   match r with RPass => 0 | RLeak => 1 | RFail => 2 | RExecFail => 3 | RTimeout => 4 end.
+Definition ev_code (e : event) : (N * (N * N)) :=
+  match e with
+  | EvScriptStarted s => (0, (s, 0))
+  | EvScriptFinished s r => (1, (s, res_code r))
+  | EvTestStarted t _ => (2, (q_id t, 0))
+  end.
+Definition case_run (defs : list sid) (rules : list rule) (tests : list tquery)
+           (outs : list outcome) :=
+  let res := run mini_disp (mkmini false 0) defs rules tests
+                 (fun s => nth (N.to_nat s) outs (mkout RExecFail None)) tests in
+  (map ev_code (snd res),
+   (flat_map (fun e => match e with EvTestStarted _ env => [env] | _ => [] end) (snd res),
+    Z.to_N (d_exit mini_disp (fst res)))).
 Definition case_finish (r : exec_result) (file : option str) : (N * (N * envmap)) :=
   match finish_script (mkout r file) with
   | (r', Some m) => (res_code r', (1, m))
@@ -347,12 +361,238 @@ def norm_impl_env(res):
     return [0, []]
 
 
-RESULTS = ["RPass", "RLeak", "RFail", "RExecFail", "RTimeout"]
+# F5 (DESIGN section 6): exit 0, one valid line and one reserved key
+F5_WITNESS = dict(
+    names=["alpha"], tool=False, profile="default", host="x86_64-unknown-linux-gnu", target=None,
+    rules=[dict(host=None, target=None, form="table", filter=["atom", 0], setup=["alpha"],
+                profile="default", setup_as_string=False)],
+    scripts=[dict(name="alpha", kind="badenv", env_bytes=list(b"C18V_FOO=bar\nNEXTEST_BAD=1\n"),
+                  exit=0, sleep_ms=0, hang=False)],
+    selected=[0, 1, 2, 3], env_maps={}, test_threads=2)
 
 
 def corpus():
     p = os.path.join(vlib.VERIF, "corpus", "C18.json")
     return json.load(open(p)) if os.path.exists(p) else {}
+
+
+
+# ------------------------------------------------------------------------------------ real runs
+RUN_BINARIES = [dict(pkg="a", binary_id="crate_a", tests=["alpha_one", "beta"]),
+                dict(pkg="b", binary_id="crate_b", tests=["gamma", "alpha_two"])]
+RUN_QUERIES = [dict(pkg=b["pkg"], kind="lib", binary_name=b["binary_id"], binary_id=b["binary_id"],
+                    platform="target", test=t) for b in RUN_BINARIES for t in b["tests"]]
+# identifier-shaped names only: the scripted test binaries are /bin/sh scripts, and sh does not
+# pass on variables whose names are not identifiers
+RUN_KEYS = ["C18V_FOO", "C18V_K", "C18V_e2", "C18V_Z"]
+RUN_ATOMS = [0, 2, 5, 8, 9, 10, 15]   # all(), test(alpha), package(crate_a), deps, rdeps, kind(lib), platform(target)
+RESULT_CODE = dict(pass_=0, fail=2, badenv=3, execfail=3, timeout=4)
+
+
+def gen_run_case(r):
+    n = r.randint(1, 3)
+    names = r.sample(NAMES, n)
+    scripts = []
+    for nm in names:
+        kind = r.choices(["pass_", "fail", "badenv", "execfail", "timeout"], [70, 10, 12, 5, 3])[0]
+        lines = [f"{r.choice(RUN_KEYS)}={r.choice(['1', nm, 'a=b', 'x y', 'ü', ''])}"
+                 for _ in range(r.randint(0, 3))]
+        if kind == "badenv":
+            lines.insert(r.randint(0, len(lines)),
+                         r.choice(["NEXTEST_BAD=1", "NOEQ", "", "NEXTEST=x", "NEXTESTING=1"]))
+        content = "".join(l + r.choice(["\n", "\n", "\r\n"]) for l in lines)
+        if lines and r.random() < 0.2 and lines[-1] != "":
+            content = content.rstrip("\r\n")
+        data = content.encode()
+        if kind == "badenv" and r.random() < 0.15:
+            data = b"C18V_FOO=ok\n\xff\xfe=1\n"
+        if kind == "badenv" and py_parse_env(data) is not None:
+            kind = "pass_"
+        scripts.append(dict(name=nm, kind=kind, env_bytes=list(data),
+                            exit=r.randint(1, 3) if kind == "fail" else 0,
+                            sleep_ms=r.choice([0, 0, 20, 40]), hang=(kind == "timeout")))
+    rules = []
+    for _ in range(r.randint(1, 3)):
+        a = ["atom", r.choice(RUN_ATOMS)]
+        flt = a if r.random() < 0.7 else ["not", a]
+        plat = r.choice([None, None, None, "cfg(unix)", "cfg(windows)"])
+        rules.append(dict(host=None, target=plat, form="string" if plat else "table", filter=flt,
+                          setup=[r.choice(names) for _ in range(r.choice([1, 1, 2]))],
+                          profile="default", setup_as_string=False))
+    return dict(names=names, tool=False, rules=rules, profile="default",
+                host="x86_64-unknown-linux-gnu", target=None, scripts=scripts,
+                selected=list(range(len(RUN_QUERIES))), env_maps={}, test_threads=r.choice([1, 2, 4, 8]))
+
+
+def render_run_toml(sc):
+    toml, _ = render_toml(sc)
+    for s_ in sc["scripts"]:
+        nm = s_["name"]
+        cmd = f'["sh", "@DIR@/script-{nm}.sh"]' if s_["kind"] != "execfail" else '["@DIR@/no-such-program"]'
+        extra = '\nslow-timeout = { period = "100ms", terminate-after = 1 }' if s_["kind"] == "timeout" else ""
+        toml = toml.replace(f'command = "run-{nm}"', f"command = {cmd}{extra}")
+    return toml
+
+
+def run_impl_case(sc):
+    return dict(op="run", toml=render_run_toml(sc), profile="default",
+                scripts=[dict(name=s_["name"], exit=s_["exit"], env_bytes=s_["env_bytes"],
+                              sleep_ms=s_["sleep_ms"] or None, hang=s_["hang"]) for s_ in sc["scripts"]],
+                binaries=RUN_BINARIES, test_threads=sc["test_threads"])
+
+
+def oracle_run(sc, res):
+    """the property's own statement on a real run; independent of the model"""
+    by_name = {s_["name"]: s_ for s_ in sc["scripts"]}
+    rules = effective_rules(sc)
+
+    def lm(s_, q):
+        return any(s_ in ru["setup"] and py_rule_matches(sc, ru, q) for ru in rules)
+
+    needed = [nm for nm in sc["names"] if any(lm(nm, q) for q in RUN_QUERIES)]
+    # (1) executed scripts: the needed ones, in definition order, up to the first non-success
+    expect_events, failed = [], False
+    parsed = {}
+    for nm in needed:
+        s_ = by_name[nm]
+        env = py_parse_env(bytes(s_["env_bytes"])) if s_["kind"] in ("pass_", "badenv") else None
+        ok = s_["kind"] == "pass_" and env is not None
+        expect_events += [["script-started", nm], ["script-finished", nm]]
+        if ok:
+            parsed[nm] = env
+        else:
+            failed = True
+            break
+    got_scripts = [e[:2] for e in res["events"] if e[0].startswith("script-")]
+    fin = {e[1]: e for e in res["events"] if e[0] == "script-finished"}
+    tests_started = [e for e in res["events"] if e[0] == "test-started"]
+    for nm, e in fin.items():
+        s_ = by_name[nm]
+        if s_["kind"] == "badenv" and e[2] in (0, 1):
+            return (f"script {nm!r} exits 0 but writes an environment file that is rejected "
+                    f"({bytes(s_['env_bytes'])!r}); it is reported as a pass, "
+                    f"{len(tests_started)} tests start and run summary is {res['summary']!r}: every "
+                    f"variable it wrote is dropped and the run does not fail with 105 (F5)")
+        want = RESULT_CODE[s_["kind"]]
+        if (e[2] in (0, 1)) != (want == 0):
+            return f"script {nm!r} ({s_['kind']}) is reported with result code {e[2]}"
+    if got_scripts != expect_events:
+        return (f"script events are {got_scripts}; the scripts needed by the selection, in definition "
+                f"order up to the first failure, give {expect_events}")
+    # (2) strictly one at a time, all before any test (invocation log written by the processes)
+    log = res["log"]
+    first_t = next((i for i, l in enumerate(log) if l.startswith("T ")), len(log))
+    if any(l.startswith("S ") for l in log[first_t:]):
+        return f"a setup script was still running when a test process started: log {log}"
+    open_ = None
+    for l in log[:first_t]:
+        _, nm, what = l.split(" ")
+        if what == "start":
+            if open_ is not None and by_name[open_]["kind"] != "timeout":
+                return f"script {nm!r} started while {open_!r} was running: log {log}"
+            open_ = nm
+        else:
+            if open_ != nm:
+                return f"script {nm!r} ended while {open_!r} was the running script: log {log}"
+            open_ = None
+    # (3) failure: no test at all, run reported as a setup-script failure (exit status 105)
+    if failed:
+        if tests_started or first_t != len(log):
+            return f"a setup script failed, yet tests started: {tests_started} log {log}"
+        if res["summary"] != "failed-setup-script":
+            return f"a setup script failed but the run summary is {res['summary']!r} (not exit status 105)"
+        return None
+    if res["summary"] != "success" or len(tests_started) != len(RUN_QUERIES):
+        return f"all scripts passed, yet summary {res['summary']!r}, tests started {tests_started}"
+    # (4) variables reach exactly the tests matched by a rule listing the script (later wins)
+    for q in RUN_QUERIES:
+        env = {}
+        for nm in needed:
+            if lm(nm, q):
+                env.update(parsed[nm])
+        got = {k: v for k, v in res["test_envs"].get(f"{q['binary_id']} {q['test']}", []) if k.startswith("C18V_")}
+        if got != env:
+            return (f"test process {q['binary_id']} {q['test']} sees {sorted(got.items())}; the scripts "
+                    f"enabled for it wrote {sorted(env.items())}")
+    return None
+
+
+def coq_run_case(sc, tables):
+    ix = {nm: i for i, nm in enumerate(sc["names"])}
+    rules = []
+    for ru in tables["rules"]:
+        flt = "None" if not ru["has_filter"] else \
+            f"(Some (tbl {coq_list([coq_bool(b) for b in ru['filter_matches']])}))"
+        rules.append(f"(mkrule {coq_bool(ru['host_eval'])} {coq_bool(ru['host_test_eval'])} "
+                     f"{coq_bool(ru['target_eval'])} {flt} {coq_list([str(ix[s]) for s in ru['setup']])})")
+    outs = []
+    for nm in sc["names"]:
+        s_ = next(x for x in sc["scripts"] if x["name"] == nm)
+        if s_["kind"] in ("pass_", "badenv"):
+            try:
+                outs.append(f"(mkout RPass (Some {coq_str(bytes(s_['env_bytes']).decode())}))")
+            except UnicodeDecodeError:
+                outs.append("(mkout RPass None)")
+        else:
+            outs.append("(mkout %s None)" % dict(fail="RFail", execfail="RExecFail", timeout="RTimeout")[s_["kind"]])
+    tests = coq_list([f"(mkq {i} false)" for i in range(len(RUN_QUERIES))])
+    return (f"case_run {coq_list([str(i) for i in range(len(sc['names']))])} {coq_list(rules)} {tests} "
+            f"{coq_list(outs)}")
+
+
+def check_runs(chk, binary, scenarios, tag):
+    tables = vlib.run_impl(binary, "scripts", [
+        dict(op="scripts", toml=render_toml(sc)[0], profile="default", host=sc["host"], target=None,
+             queries=RUN_QUERIES, selected=sc["selected"], env_maps={}) for sc in scenarios])
+    impl = vlib.run_impl(binary, "scripts", [run_impl_case(sc) for sc in scenarios], shards=4)
+    model = vlib.coq_eval(tag, IMPORTS, [coq_run_case(sc, t) for sc, t in zip(scenarios, tables)], PRELUDE)
+    oracle_fail, mismatch = None, None
+    for sc, res, mo in zip(scenarios, impl, model):
+        chk.count("real_run_cases")
+        if "events" not in res:
+            chk.violation("broken-obligation", "real-run", dict(input=sc, impl=res), no_input=True)
+            return
+        for s_ in sc["scripts"]:
+            chk.count(f"real_run_script_{s_['kind'].rstrip('_')}")
+        chk.count(f"real_run_summary={res['summary']}")
+        why = oracle_run(sc, res)
+        if why and oracle_fail is None:
+            oracle_fail = (sc, res, why)
+        # model: script events exactly; started tests as a set with their script-provided variables
+        ix = {nm: i for i, nm in enumerate(sc["names"])}
+        i_scripts = [[0, [ix[e[1]], 0]] if e[0] == "script-started" else [1, [ix[e[1]], e[2]]]
+                     for e in res["events"] if e[0].startswith("script-")]
+        m_events = [[e[0], list(e[1])] for e in mo[0]]
+        m_scripts = [e for e in m_events if e[0] != 2]
+        m_tests = {e[1][0]: {decode_str(k): decode_str(v) for k, v in env}
+                   for e, env in zip([e for e in m_events if e[0] == 2], mo[1][0])}
+        qix = {(q["binary_id"], q["test"]): i for i, q in enumerate(RUN_QUERIES)}
+        i_tests = {}
+        for e in res["events"]:
+            if e[0] == "test-started":
+                envl = res["test_envs"].get(f"{e[1]} {e[2]}", [])
+                i_tests[qix[(e[1], e[2])]] = {k: v for k, v in envl if k.startswith("C18V_")}
+        i_exit = 105 if res["summary"] == "failed-setup-script" else 0
+        if (i_scripts != m_scripts or i_tests != m_tests or i_exit != mo[1][1]) and mismatch is None:
+            mismatch = (sc, res, dict(script_events=m_scripts, tests={str(k): v for k, v in m_tests.items()},
+                                      exit=mo[1][1]))
+    if oracle_fail:
+        sc, res, why = oracle_fail
+        chk.violation("counterexample", "oracle:real-run",
+                      dict(input=sc, toml=render_run_toml(sc), clause=why,
+                           impl=dict(events=res["events"], log=res["log"], summary=res["summary"],
+                                     test_envs={k: [kv for kv in v if kv[0].startswith("C18V_")]
+                                                for k, v in res["test_envs"].items()})))
+    elif mismatch:
+        sc, res, mo = mismatch
+        chk.violation("broken-obligation", "corr:real-run",
+                      dict(input=sc, toml=render_run_toml(sc), model=mo,
+                           impl=dict(events=res["events"], log=res["log"], summary=res["summary"])),
+                      no_input=True)
+    chk.sample(dict(real_run=dict(toml=render_run_toml(scenarios[0]), scripts=[
+        dict(name=s_["name"], kind=s_["kind"], env=bytes(s_["env_bytes"]).decode("utf-8", "replace"))
+        for s_ in scenarios[0]["scripts"]]), events=impl[0].get("events"), log=impl[0].get("log"),
+        summary=impl[0].get("summary")))
 
 
 # ------------------------------------------------------------------------------------ the check
@@ -479,7 +719,13 @@ def run(tier, seed):
         files.append(gen_env_file(r, malformed=r.random() < 0.45).encode("utf-8"))
     check_env_files(chk, binary, files, "c18e")
 
-    # ---- corr:finish (model only: repaired rule) + corr:final-stats (public API) ----------------
+    # ---- real runs of the real runner over scripted scripts and scripted test binaries ---------
+    runs = [F5_WITNESS] + list(cp.get("runs", []))
+    while len(runs) < (160 if thorough else 36):
+        runs.append(gen_run_case(r))
+    check_runs(chk, binary, runs, "c18r")
+
+    # ---- corr:final-stats (public API) -----------------------------------------------------------
     stats_cases = []
     for initial in range(0, 4):
         for finished in range(0, initial + 1):
